@@ -76,14 +76,14 @@ type Explorer struct {
 	cfg     *RunConfig
 	replace map[string]*ssa.Function
 
-	mu      sync.Mutex
-	cond    *sync.Cond
-	work    [][]Decision
-	active  int
-	res     *HarnessResult
-	funcs   map[*ssa.Function]bool
-	maxPath int
-	stop    bool
+	mu         sync.Mutex
+	cond       *sync.Cond
+	work       [][]Decision
+	active     int
+	res        *HarnessResult
+	funcs      map[*ssa.Function]bool
+	maxPath    int
+	stop       bool
 	maxSeconds int
 	concParams map[string]concSpec
 }
